@@ -9,7 +9,8 @@ def swarm(rng):
     cfg = c02.swarm(rng)
     cfg.update({"n_spaces": rng.choice([2, 3, 4]), "n_cells": rng.choice([2, 3, 4]), "n_refs": rng.choice([1, 2, 3]),
                 "n_requests": rng.choice([15, 30, 50]), "p_fnref": rng.choice([0.0, 0.1]), "recalc": False,
-                "p_objref": rng.choice([0.0, 0.1, 0.25]), "faults": rng.random() < 0.3})
+                "p_objref": rng.choice([0.0, 0.1, 0.25]), "faults": rng.random() < 0.3, "nested_item_eval": rng.random() < 0.5,
+                "max_depth": rng.choice([1, 2, 2, 3])})
     return cfg
 
 
